@@ -80,7 +80,11 @@ def main():
         print(json.dumps({"error": "stand-in packages were not picked up"}))
         return
     r = random.Random(seed * 6151 + 3)
-    tys = list(capi.CORPUS) + capi.gen_types(r, n)
+    # different classes under ONE C name, built one after the other in this process: every build must describe ITS class
+    twins = [("array", ("scalar", 0), [3, 4], [0, 1]), ("array", ("scalar", 0), [3, 4], [1, 0]),
+             ("struct", "Twin", [("a", ("scalar", 2)), ("b", ("array", ("scalar", 4), [None], [0]))]),
+             ("struct", "Twin", [("b", ("array", ("scalar", 4), [None], [0])), ("a", ("scalar", 2)), ("c", ("scalar", 0))])]
+    tys = list(capi.CORPUS) + twins + capi.gen_types(r, n)
     for t in tys:
         cache = {}
         cls = T.build(t, cache)
